@@ -259,6 +259,13 @@ func VH_C11_mergeall() {
 			rt.Assert(rerr == nil && len(rbb.Snapshot().Operations) == before+1, "edit-builds-on-merged-history")
 		}
 	}
+	// what the pull brought survives a close and reopen (the cache file was rewritten)
+	rt.Assert(c.Close() == nil, "close-after-merge")
+	c3, err := NewRepoCacheNoEvents(w.r)
+	rt.Assert(err == nil, "reopen-after-merge")
+	if err == nil {
+		vhCoherent(c3, w, "-after-merge-and-reopen")
+	}
 	rt.Observe("scenario", scenario)
 }
 
@@ -389,7 +396,23 @@ type VHFixture struct {
 
 // VHNewFixture: a model repository with the identities alice and bob and one bug
 // (create + one comment) by bob; clocks in sync.
-func VHNewFixture() *VHFixture {
+func VHNewFixture() *VHFixture { return VHNewFixtureN(2) }
+
+// VHNewFixtureN: with n == 1 the repository holds a single identity (alice, who also
+// wrote the bug).
+func VHNewFixtureN(n int) *VHFixture {
+	if n == 1 {
+		dag.VHResetPacks()
+		identity.VHReset()
+		w := &vhWorld{r: vrepo.New()}
+		w.alice = identity.VHStoreIdentity(w.r, "alice", 1, true, "")
+		w.bob = w.alice
+		_ = w.r.LocalConfig().StoreString("git-bug.identity", w.alice.Id().String())
+		id, h := w.storeBug(0, w.alice, "t0", 1)
+		w.r.SetRef("refs/bugs/"+id.String(), h)
+		w.syncClocks()
+		return &VHFixture{Repo: w.r, Alice: w.alice.Id(), Bob: w.alice.Id(), Bug: id, w: w}
+	}
 	w := vhNewWorld()
 	id, h := w.storeBug(0, w.bob, "t0", 1)
 	w.r.SetRef("refs/bugs/"+id.String(), h)
